@@ -14,7 +14,7 @@ LEVEL = "exploration"
 RULE = ("case = one execution of a traced plan (every yield records the value or exception it receives): corpus plans and "
         "'responses' (one yield of almost every command), bare and under the preprocessors SupplementalData(baseline, "
         "monitors), finalize_wrapper, relative_set/reset_positions, set_run_key, msg/plan mutators and a message filter that removes messages (the plan gets None there), uninterrupted and "
-        "with pause/resume or suspension (with pre/post plans) landing after EVERY loop handle; the received value must be "
+        "with pause/resume or suspension (with pre/post plans) landing after EVERY loop handle, plus a second pause landing inside the replay of the command the first one interrupted; the received value must be "
         "the response of the latest execution of that very message: the new run's uid for open_run, the device's own "
         "status object (identity) for set/trigger/kickoff/complete, the device's reading/location/list (equality) for read/locate/stage/unstage, True for wait, "
         "the flag for rewindable, a working token for subscribe, the payload for collect, None otherwise; RE()/resume() "
@@ -23,7 +23,7 @@ RULE = ("case = one execution of a traced plan (every yield records the value or
 ASSUMPTIONS = ["a response is 'to its own message' when it is what the device/engine produced during some execution of that "
                "message object before the value was delivered (a rewind may execute a message more than once)"]
 REQUIRED_COUNTERS = {"executions": 500, "responses_checked": 10000, "identity_checks": 3000, "interrupted_executions": 300,
-                     "call_returns_checked": 300, "result_objects_checked": 50, "removed_messages_checked": 200}
+                     "call_returns_checked": 300, "result_objects_checked": 50, "removed_messages_checked": 200, "second_interruption_of_replay": 100}
 MANIFEST = {
     "technique": "self-instrumented plans + response oracle (identity against the device ledger / document log) over an "
                  "exhaustive pause/suspend coordinate sweep and a preprocessor matrix",
@@ -293,6 +293,27 @@ def run_case(case):
         params = params_for(case["kind"]) if case["kind"] != "pause" else {}
         ex = run_exec(dict(base, inj=[[c[0], c[1], case["kind"], params]], decisions=["resume", "resume", "resume"]))
         out += judge(ex, case["wrapper"], nm)
+        # the same command interrupted a SECOND time, while its replay is executing (before it ever completed)
+        if len(out) % 3 == 0:
+            msgs = [e[1] for e in ex.log if e[0] == "msg"]
+            hit = None
+            last = None
+            for e in ex.log:
+                if e[0] == "msg":
+                    last = e[1]
+                elif e[0] == "state" and e[1] in ("pausing", "suspending"):
+                    hit = last
+                    break
+            if hit is not None:
+                idxs = [k + 1 for k, m in enumerate(msgs) if m is hit]
+                if len(idxs) >= 2:
+                    ex2 = run_exec(dict(base, inj=[[c[0], c[1], case["kind"], params], [idxs[1], 2, "pause", {}]],
+                                        decisions=["resume", "resume", "resume", "resume"]))
+                    rs = judge(ex2, case["wrapper"], nm)
+                    for r in rs:
+                        if r.get("counters"):
+                            r["counters"]["second_interruption_of_replay"] = 1
+                    out += rs
     return out
 
 
